@@ -357,6 +357,22 @@ DECLS = [('F', 'o', [('R', L('1'))], 'int f()'), ('F', 'y', [('R', L('1'))], 'in
          ('F', 'd', [('R', L('1'))], 'int !d()')]
 
 
+def load_sigils():
+    """flavour prefixes as written in hidc/lexer/tokens.py (read with ast by the translator)"""
+    try:
+        import ast
+        import regen_context
+        with open(os.path.join(REPO, regen_context.TOKENS)) as f:
+            sig = dict(regen_context.read_flavors(ast.parse(f.read())))
+        y, d = sig['YOU'], sig['DEFEAT']
+    except Exception:
+        return
+    CALL_NAME.update({'o': 'f', 'y': y + 'y', 'd': d + 'd'})
+    FUNC_HEAD.update({'o': 'int fn%d()', 'y': 'empty ' + y + 'you%d()', 'd': 'int ' + d + 'def%d()'})
+    DECLS[:] = [('F', 'o', [('R', L('1'))], 'int f()'), ('F', 'y', [('R', L('1'))], 'int %sy()' % y),
+                ('F', 'd', [('R', L('1'))], 'int %sd()' % d)]
+
+
 def called(e, acc):
     """flavours of the calls in a tree (any node)"""
     if isinstance(e, tuple):
@@ -701,7 +717,7 @@ def sub_exprs(e):
 
 def shrink_expr(e):
     """smaller expressions"""
-    if e[0] != 'L':
+    if e != L('1'):
         yield L('1')
     for s in sub_exprs(e):
         yield s
@@ -854,26 +870,40 @@ def verdict_pair(exe, progs):
     return list(zip(progs, srcs, impl, model))
 
 
-def shrink(exe, prog, budget=4000):
+def shrink(exe, prog, budget=1500):
+    """greedy delta debugging on the generator tree: take the first smaller tree on which the two
+    sides still differ; candidates are evaluated in small batches"""
     cur = norm_program(prog)
     used = 0
     progress = True
     while progress and used < budget:
         progress = False
-        cands = []
         seen = set()
-        for c in shrink_program(cur):
-            key = repr(c)
-            if key not in seen:
+        batch = []
+
+        def flush():
+            for p, s, i, m in verdict_pair(exe, batch):
+                if i != m:
+                    return p
+            return None
+        gen = shrink_program(cur)
+        while used < budget:
+            c = next(gen, None)
+            if c is not None:
+                key = repr(c)
+                if key in seen:
+                    continue
                 seen.add(key)
-                cands.append(c)
-            if len(cands) >= 400:
-                break
-        used += len(cands)
-        for p, s, i, m in verdict_pair(exe, cands):
-            if i != m:
-                cur = p
-                progress = True
+                batch.append(c)
+            if batch and (c is None or len(batch) >= 24):
+                used += len(batch)
+                hit = flush()
+                batch = []
+                if hit is not None:
+                    cur = hit
+                    progress = True
+                    break
+            if c is None:
                 break
     return cur
 
@@ -926,6 +956,7 @@ def run(tier='quick', seed=0, workdir=None):
     nproc = max(1, min(12, (os.cpu_count() or 2) - 2))
     try:
         exe = build_model(workdir, log)
+        load_sigils()
         _load_hidc()
         pool = multiprocessing.Pool(nproc) if nproc > 1 else None
 
@@ -989,21 +1020,31 @@ def run(tier='quick', seed=0, workdir=None):
                 a[0 if i == 'ok' else 1] += 1
 
         bad = [k for k in range(len(progs)) if impl[k] != model[k]]
+        # shrink a few, one per (construct, model verdict, impl verdict) class first
+        classes = {}
+        for k in bad:
+            classes.setdefault((labels[k]['construct'], model[k], impl[k]), []).append(k)
+        chosen = [ks[0] for ks in classes.values()][:10]
+        for k in bad:
+            if len(chosen) >= 10:
+                break
+            if k not in chosen:
+                chosen.append(k)
         disagreements = []
         seen_min = set()
-        for k in bad[:40]:
+        for k in chosen:
             small = shrink(exe, progs[k])
             (p, s, i, m), = verdict_pair(exe, [small])
-            key = s
-            if key in seen_min:
+            if s in seen_min:
                 continue
-            seen_min.add(key)
+            seen_min.add(s)
             disagreements.append({
                 'input': s, 'abstract': sx_program(p), 'model': m, 'impl': i,
                 'original_input': srcs[k], 'original_model': model[k], 'original_impl': impl[k],
                 'label': {'construct': labels[k]['construct'], 'where': labels[k]['where'],
                           'path': list(labels[k]['path'])},
             })
+        disagreement_classes = {'%s: model %s, hidc %s' % c: len(ks) for c, ks in classes.items()}
         samples = []
         for k in sorted(rng.sample(range(len(progs)), min(8, len(progs)))):
             samples.append({'input': srcs[k], 'abstract': sxs[k], 'model': model[k], 'impl': impl[k]})
@@ -1019,6 +1060,7 @@ def run(tier='quick', seed=0, workdir=None):
                                 '(plus the hosting position), %d programs; random part is a sample'
                                 % (depth, n_enum),
             'disagreement_count': len(bad),
+            'disagreement_classes': disagreement_classes,
             'disagreements': disagreements,
             'samples': samples,
             'distribution': {
